@@ -112,6 +112,8 @@ class Register:
         try:
             if self.name != other.name:
                 return False
+            if self.fundamental != other.fundamental:
+                return False
             if self.fundamental:
                 return self.size == other.size
             else:
